@@ -35,11 +35,13 @@ row's cells, its body-control attributes and its bind source) built by the same 
 hint / itemset children of a control, the default text of an instance node, and the order of the model's children.
 
 Fragment (everything else is answered `unsupported`, deterministically): question types text / integer / decimal /
-date / note / calculate / select_one L / select_multiple L, begin/end group and repeat (nested); survey columns
-type, name, label, hint, relevant, required, constraint, calculation, read_only, constraint_message,
-required_message, appearance, default (static); one language (plain `label` / `hint` columns, no `${}` in them);
-`${name}` in logic cells only to questions that are direct children of the survey (absolute path, `Binds.subst`);
-names unique in the form; choices columns list_name / name / label; settings form_title / form_id / version.
+date / note / calculate / select_one L / select_multiple L (with `or_other`), audit rows (→ `meta/audit`), begin/end group
+and repeat (nested); survey columns type, name, label, hint, relevant, required, constraint, calculation, read_only,
+constraint_message, required_message, appearance, default (static → instance text, dynamic → `setvalue` in the model or
+in the enclosing repeat), repeat_count (`<repeat>_count` node / direct reference), disabled; one language; `${name}` in
+logic cells, defaults, repeat counts, labels and hints to any element at any depth (`Refs.refFor`: absolute and relative
+paths; `<output>` in labels through `Chan.mixedChannel`); choices columns list_name / name / label; settings form_title /
+form_id / version / `attribute::x`.  See notes/design_E2E.md for the `unsupported` list and the guards.
 -/
 namespace Pyxv.Convert
 open Pyxv Pyxv.Form Pyxv.Rows Pyxv.Xml
